@@ -6,10 +6,7 @@ import sys
 
 VERIF = os.path.dirname(os.path.dirname(os.path.abspath(__file__)))
 MISS = {
-    "C08-r1-3": "the difference is lxml raising ValueError for the prefix '' inside the C library: behind the SAX seam (the recorded streams stay infoset-equal)",
     "C10-r1-2": "missed by the quick tier when run; the check now has a document with an object nested below a best-match object (doc holdernest)",
-    "C12-r1-3": "ResourceTransformer's on-disk cache (file I/O, click-dependent CLI route): outside the ordering kernels",
-    "C19-r2-3": "from_path / XInclude base_url: file I/O, outside every claim",
 }
 res = {}
 for fn in sys.argv[1:]:
